@@ -37,10 +37,13 @@ def is_param_id(cb, p, v):
 
 
 def is_upvar(name):
+    """the closure capture called `name`; with name None: the closure's only capture (what it captures is checked at
+    the call site from the closure aggregate, so the name the programmer gave the variable does not matter)"""
     def pred(cb, p, v):
         x = v
         for _ in range(3):
-            if q.upvar_of(cb, x) == name:
+            u = q.upvar_of(cb, x)
+            if u is not None and (u == name or (name is None and len(cb.upvar_names) == 1)):
                 return True
             if x[0] == 'load' and x[1][0] == 'deref':
                 x = x[1][1]
@@ -48,6 +51,17 @@ def is_upvar(name):
                 break
         return False
     return pred
+
+
+def evidence_params(b):
+    """(index of the identity parameter, index of the probe-number parameter) of receive_ack / receive_indirect_ack:
+    found by type, so that reordering the parameters of these private functions changes nothing."""
+    ids = [i for i in range(2, b.argc + 1) if str(b.locals[i]).startswith('&') and 'Probe' not in str(b.locals[i])]
+    nums = [i for i in range(2, b.argc + 1) if str(b.locals[i]) == 'u8']
+    if len(ids) != 1 or len(nums) != 1:
+        from .lib.facts import MissingAnchor
+        raise MissingAnchor('%s no longer takes one identity reference and one probe number' % b.nname)
+    return ids[0], nums[0]
 
 
 def r1_evidence(ctx, f, rep, eff):
@@ -72,17 +86,29 @@ def r1_evidence(ctx, f, rep, eff):
     rep.check(w == [], 'C12-R1', 'Foca', 'Foca.probe is never reassigned (a running round is not dropped, probe numbers are not '
               'recycled)', construct='probe-never-replaced', facts={'writers': w})
     m = set(eff.writers_of('Foca', 'probe', kinds=('M',)))
-    rep.check(m <= {'Foca::become_disconnected', 'Foca::become_undead', 'Foca::handle_data', 'Foca::handle_timer',
-                    'Foca::probe_random_member', 'Foca::reset'}, 'C12-R1', 'Foca', 'Foca.probe is lent mutably only to the probe '
-              'handlers and the epoch-ending functions', construct='probe-borrowers', facts={'borrowers': sorted(m)})
+    # (the epoch-ending functions are those that bump the timer token - C13-R1 shows each bump is an epoch boundary)
+    enders = set(eff.writers_of('Foca', 'timer_token'))
+    rep.check(m <= {'Foca::handle_data', 'Foca::handle_timer', 'Foca::probe_random_member'} | enders, 'C12-R1', 'Foca',
+              'Foca.probe is lent mutably only to the probe handlers and the epoch-ending functions',
+              construct='probe-borrowers', facts={'borrowers': sorted(m), 'epoch_enders': sorted(enders)})
     cs = sorted({c[0].nname for c in f.callers_of(lambda x: x == 'probe::Probe::new')})
     rep.check(cs == ['Foca::with_custom_broadcast'], 'C12-R1', PROBE, 'a Probe is constructed only by the constructor',
               construct='probe-new-callers', facts={'callers': cs})
     cs = set(c[0].nname for c in f.callers_of(lambda x: x == 'probe::Probe::clear'))
-    rep.check(cs <= {'Foca::become_disconnected', 'Foca::become_undead', 'Foca::probe_random_member', 'Foca::reset',
-                     'probe::Probe::start'}, 'C12-R1', PROBE, 'Probe::clear is called only when an epoch ends or a new round '
+    good = True
+    for fn in sorted(cs - {'Foca::probe_random_member', 'probe::Probe::start'}):
+        # anywhere else a clear must be part of an epoch end: the same path bumps the timer token
+        for p in ctx.paths(f, f.fn(fn), 'none'):
+            if p.end != 'return':
+                continue
+            clr = [c for c in p.calls() if c['res'] == 'probe::Probe::clear']
+            tw = [x for x in p.writes() if x['place'] == q.self_field('timer_token')]
+            if clr and not tw:
+                good = False
+    rep.check(good, 'C12-R1', PROBE, 'Probe::clear is called only when an epoch ends or a new round '
               'starts', construct='probe-clear-callers', facts={'callers': sorted(cs)})
     b = f.fn('probe::Probe::receive_ack')
+    FROM, NUM = evidence_params(b)      # the identity and the probe number, whatever their order
     n = 0
     for p in ctx.paths(f, b, 'none'):
         calls = {c['id']: c for c in p.calls()}
@@ -90,29 +116,28 @@ def r1_evidence(ctx, f, rep, eff):
         num = tgt = None
         for c in p.conds():
             es = q.eq_sides(c['expr'])
-            if es and {es[1], es[2]} == {('param', 0, 3), ('load', pf('probe_number'), 0)}:
+            if es and {es[1], es[2]} == {('param', 0, NUM), ('load', pf('probe_number'), 0)}:
                 num = (q.cond_truth(c) == es[0])
             if c['expr'][0] == 'call' and calls[c['expr'][1]]['res'] == 'core::option::Option::is_some_and':
                 isa = calls[c['expr'][1]]
                 recv = isa['args'][0]
-                src_ok = recv[0] == 'call' and calls[recv[1]]['res'] == 'core::option::Option::as_ref' and \
-                    calls[recv[1]]['args'][0] == ('ref', pf('direct'), False)
+                src_ok = recv[0] == 'optref' and recv[1] == pf('direct') and not recv[2]
                 clo_ok = closure_eq_table(ctx, f, isa['args'][1],
-                                          lambda cb, pp, v: v[0] == 'call' or is_param_id(cb, pp, v), is_upvar('from')) and \
-                    isa['args'][1][5] == (('ref', ('local', 0, 2), False),)
+                                          lambda cb, pp, v: v[0] == 'call' or is_param_id(cb, pp, v), is_upvar(None)) and \
+                    isa['args'][1][5] == (('ref', ('local', 0, FROM), False),)
                 if src_ok and clo_ok:
                     tgt = q.cond_truth(c)
             if c['expr'][0] == 'call' and calls[c['expr'][1]]['res'] == 'probe::Probe::is_probing':
                 # the same test through the helper (whose body is checked by common.check_helpers)
                 ip = calls[c['expr'][1]]
-                if q.is_param(ip['args'][0], 1) and q.is_param(ip['args'][1], 2):
+                if q.is_param(ip['args'][0], 1) and q.is_param(ip['args'][1], FROM):
                     tgt = q.cond_truth(c)
         if tgt is None and ws:
             # the identity test spelled inline: match self.direct.as_ref() { Some(d) => d.id() == from, None => false }
             wi = [i for i, x in enumerate(p.events) if x is ws[0]][0]
             # (also when bound to a local first - `let from_direct = match ..; if !from_direct { return false }` - since
             # the branch on that local is a cond whose expression is the comparison itself)
-            tgt = q.direct_target_is(f, p, wi, 2)
+            tgt = q.direct_target_is(f, p, wi, FROM)
         n += 1
         if ws:
             rep.check(num is True and tgt is True and ws[0]['value'] == ('const', 'bool', 1, 'true') and
@@ -121,27 +146,66 @@ def r1_evidence(ctx, f, rep, eff):
         else:
             rep.check(p.ret == ('const', 'bool', 0, 'false') or p.end != 'return', 'C12-R1', b.nname,
                       'no evidence -> returns false', construct='direct-no-evidence:%s:%s' % (num, tgt))
+            if p.end == 'return':
+                # the other direction: an Ack with the current number from the probed member is never refused - whatever
+                # stage the round is in, however late it comes
+                if tgt is None:
+                    tgt = q.direct_target_is(f, p, len(p.events), FROM)
+                rep.check(num is False or tgt is False, 'C12-R1', b.nname, 'an Ack is refused only for a wrong probe '
+                          'number or a wrong sender', construct='direct-refusal-justified')
     rep.floor('C12-R1', n, 3, 'receive_ack paths')
     b = f.fn('probe::Probe::receive_indirect_ack')
+    FROM, NUM = evidence_params(b)
     n = 0
     for p in ctx.paths(f, b, 'none'):
         calls = {c['id']: c for c in p.calls()}
         ws = [(i, x) for i, x in enumerate(p.events) if x['kind'] == 'write' and x['place'] == pf('indirect_ack_count')]
         num = found = None
-        posid = None
+        posid = posval = None
         for c in p.conds():
             es = q.eq_sides(c['expr'])
-            if es and {es[1], es[2]} == {('param', 0, 3), ('load', pf('probe_number'), 0)}:
+            if es and {es[1], es[2]} == {('param', 0, NUM), ('load', pf('probe_number'), 0)}:
                 num = (q.cond_truth(c) == es[0])
             if c['expr'][0] == 'discr' and c['expr'][1][0] == 'call' and calls[c['expr'][1][1]]['res'].endswith('Iterator>::position'):
                 pc = calls[c['expr'][1][1]]
                 over_helpers = any(x['res'] == '<alloc::vec::Vec as core::ops::Deref>::deref' and
                                    x['args'][0] == ('ref', pf('indirect'), False) for x in p.calls())
-                clo_ok = closure_eq_table(ctx, f, pc['args'][1], is_param_id, is_upvar('from')) and \
-                    pc['args'][1][5] == (('ref', ('local', 0, 2), False),)
+                clo_ok = closure_eq_table(ctx, f, pc['args'][1], is_param_id, is_upvar(None)) and \
+                    pc['args'][1][5] == (('ref', ('local', 0, FROM), False),)
                 if over_helpers and clo_ok:
                     found = q.cond_variants(f, c) == {'Some'}
                     posid = pc['id']
+                    posval = ('fieldv', ('call', posid), '0', 'Some')
+        if found is None:
+            # the search written as a loop: `for (i, id) in self.indirect.iter().enumerate() { if id == from { .. i .. } }`
+            for x in p.calls():
+                if x['res'] != 'alloc::vec::Vec::swap_remove' or x['args'][0] != ('ref', pf('indirect'), True):
+                    continue
+                ix = x['args'][1]
+                if not (ix[0] == 'fieldv' and ix[2] == '0' and ix[1][0] == 'fieldv' and ix[1][2] == '0' and ix[1][3] == 'Some'
+                        and ix[1][1][0] == 'call' and ix[1][1][1] in calls):
+                    continue
+                nx = calls[ix[1][1][1]]
+                if not nx['res'].endswith('Enumerate as core::iter::Iterator>::next'):
+                    continue
+                item = ix[1]
+                chain = [y['res'] for y in p.calls()[:p.calls().index(nx)]]
+                over_helpers = any(y['res'] == '<alloc::vec::Vec as core::ops::Deref>::deref' and
+                                   y['args'][0] == ('ref', pf('indirect'), False) for y in p.calls()) and \
+                    'core::slice::<impl [T]>::iter' in chain and 'core::iter::Iterator::enumerate' in chain and \
+                    not any(y['res'].endswith(('::skip', '::rev', '::filter', '::step_by', '::zip', '::chain')) for y in p.calls())
+                elem = ('fieldv', item, '1', None)
+                same = False
+                for c in p.conds():
+                    es = q.eq_sides(q.norm_bool(c)[0])
+                    if es and q.norm_bool(c)[1] == es[0]:
+                        sides = [es[1], es[2]]
+                        strip = lambda v: v[1][1] if v[0] == 'load' and v[1][0] == 'deref' else v
+                        if {strip(sides[0]), strip(sides[1])} == {elem, ('param', 0, FROM)}:
+                            same = True
+                if over_helpers and same:
+                    found = True
+                    posval = ix
         n += 1
         if ws:
             i, wv = ws[0]
@@ -149,7 +213,7 @@ def r1_evidence(ctx, f, rep, eff):
             inc_ok = v[0] == 'binop' and v[1] == 'Add' and v[2] == ('load', pf('indirect_ack_count'), 0) and \
                 v[3][0] == 'const' and v[3][2] == 1
             rm = [x for x in p.events[i:] if x['kind'] == 'call' and x['res'] == 'alloc::vec::Vec::swap_remove'
-                  and x['args'][0] == ('ref', pf('indirect'), True) and x['args'][1] == ('fieldv', ('call', posid), '0', 'Some')]
+                  and x['args'][0] == ('ref', pf('indirect'), True) and x['args'][1] == posval]
             rep.check(num is True and found is True and inc_ok and len(rm) == 1 and len(ws) == 1 and
                       p.ret == ('const', 'bool', 1, 'true'), 'C12-R1', b.nname, 'indirect evidence counted once, only for '
                       'the current probe number from an asked helper, which is then removed', site=wv['span'],
@@ -157,6 +221,24 @@ def r1_evidence(ctx, f, rep, eff):
         else:
             rep.check(p.ret == ('const', 'bool', 0, 'false') or p.end != 'return', 'C12-R1', b.nname, 'no evidence -> false',
                       construct='indirect-no-evidence:%s:%s' % (num, found))
+            if p.end == 'return':
+                if found is None:
+                    # loop form of the search: exhausted (`next()` gave None) without any element comparing equal
+                    nx = [c for c in p.calls() if c['res'].endswith('Enumerate as core::iter::Iterator>::next') or
+                          c['res'] == '<core::slice::Iter as core::iter::Iterator>::next']
+                    over = any(x['res'] == '<alloc::vec::Vec as core::ops::Deref>::deref' and
+                               x['args'][0] == ('ref', pf('indirect'), False) for x in p.calls())
+                    if nx and over and q.option_known(f, p, len(p.events), ('call', nx[-1]['id'])) == 'None':
+                        hit = False
+                        for c in p.conds():
+                            e_, t_ = q.norm_bool(c)
+                            es_ = q.eq_sides(e_)
+                            if es_ and t_ is not None and ('param', 0, FROM) in (es_[1], es_[2]) and t_ == es_[0]:
+                                hit = True
+                        if not hit:
+                            found = False
+                rep.check(num is False or found is False, 'C12-R1', b.nname, 'a ForwardedAck is refused only for a wrong '
+                          'probe number or a sender that was not asked', construct='indirect-refusal-justified')
     rep.floor('C12-R1', n, 3, 'receive_indirect_ack paths')
     b = f.fn('probe::Probe::clear')
     for p in ctx.paths(f, b, 'none'):
@@ -214,9 +296,9 @@ def r1_evidence(ctx, f, rep, eff):
     for p in ctx.paths(f, b, 'none'):
         calls = {c['id']: c for c in p.calls()}
         sc = [c for c in p.conds() if c['expr'][0] == 'call' and calls[c['expr'][1]]['res'] == 'probe::Probe::succeeded']
-        took = [c for c in p.calls() if c['res'] == 'core::option::Option::take' and c['args'][0] == ('ref', pf('direct'), True)]
+        took = q.takes_of(p, pf('direct'))
         if sc and q.cond_truth(sc[0]) is False:
-            rep.check(len(took) == 1 and p.ret == ('call', took[0]['id']), 'C12-R1', b.nname,
+            rep.check(len(took) == 1 and p.ret == took[0][1], 'C12-R1', b.nname,
                       'not succeeded -> yields (and clears) the probed member', construct='take-failed:failed')
         else:
             rep.check(not took and (q.is_variant(p.ret, 'Option', 'None') or (p.ret[0] == 'agg' and p.ret[3] == 'None')),
@@ -277,8 +359,9 @@ def r2_reporters(ctx, f, rep):
             short = e['res'].split('::')[-1]
             n[short] += 1
             ks = message_kinds(f, p, i, lambda v: v == msg)
-            frm = e['derefs'][1]
-            num = e['args'][2]
+            FROM, NUM = evidence_params(f.fn(e['res']))
+            frm = e['derefs'][FROM - 1]
+            num = e['args'][NUM - 1]
             if short == 'receive_ack':
                 good = ks == {'Ack'} and frm == src and num == ('fieldv', msg, '0', 'Ack')
             else:
@@ -365,10 +448,12 @@ def r3_indirect_stage(ctx, f, rep):
             if e['kind'] == 'call' and e['res'] == 'alloc::vec::Vec::push':
                 n += 1
                 g = False
+                # `wanted` is the function's only usize parameter, wherever it stands
+                wanted = [('param', 0, k) for k in range(1, cm.argc + 1) if str(cm.locals[k]) == 'usize']
                 for c in reversed(q.conds_before(p, i)):
-                    ex = c['expr']
-                    if ex[0] == 'binop' and ex[1] == 'Lt' and ex[3] == ('param', 0, 2):
-                        g = q.cond_truth(c) is True
+                    nrm = q.cmp_norm(c)
+                    if nrm is not None and len(wanted) == 1 and wanted[0] in (nrm[1], nrm[2]):
+                        g = nrm[0] == 'gt' and nrm[1] == wanted[0]
                         break
                 rep.check(g, 'C12-R3', cm.nname, 'the reservoir grows only while num_chosen < wanted', site=e['span'],
                           construct='reservoir-bound')
@@ -452,6 +537,33 @@ def r4_relay(ctx, f, rep):
                         ours = (q.cond_truth(c) == es[0])
                 rejected.setdefault(k, []).append(ours is True and not any(x['res'] == 'Foca::send_message' and
                                                                             q.variant_name(x['args'][2]) != 'TurnUndead' for x in p.calls()))
+    # the other direction: once the handled kind is one of the four, the instance is Connected and (for relays) the named
+    # identity is not ours, the reply is always sent - nothing else can veto an Ack or a relay hop
+    nconv = 0
+    for p in ctx.paths(f, hd, 'none'):
+        if p.end != 'return' or q.path_is_error_propagation(p):
+            continue
+        h, src, msg = header_parts(p)
+        if h is None:
+            continue
+        ks = message_kinds(f, p, len(p.events), lambda v: v == msg)
+        if len(ks) != 1 or next(iter(ks)) not in RELAY:
+            continue
+        k = next(iter(ks))
+        conn = ours = None
+        for c in p.conds():
+            es = q.eq_sides(c['expr'])
+            if es and q.is_self_field_load(es[1], 'connection_state') and q.is_variant(es[2], 'ConnectionState', 'Connected'):
+                conn = (q.cond_truth(c) == es[0])
+            if es and k in NAMED and named_vs_self(es, msg, k):
+                ours = (q.cond_truth(c) == es[0])
+        if conn is not True or (k in NAMED and ours is not False):
+            continue
+        nconv += 1
+        sent = [q.variant_name(e['args'][2]) for e in p.calls() if e['res'] == 'Foca::send_message']
+        rep.check(RELAY[k][0] in sent, 'C12-R4', hd.nname, 'a %s handled while Connected is always answered with %s' % (k, RELAY[k][0]),
+                  construct='always-replies:%s' % k, facts={'sent': sent})
+    rep.floor('C12-R4', nconv, 4, 'handle_data paths that end in one of the four reply arms')
     for k in RELAY:
         rep.floor('C12-R4', len(seen.get(k, [])), 1, 'reply occurrences for ' + k)
     for k in NAMED:
@@ -567,6 +679,31 @@ def r5_suspect_once(ctx, f, rep):
         if n > 5:
             break
     rep.floor('C12-R5', n, 1, 'Ping sends')
+    # ... and the other direction: every probe tick asks Members::next for a target, and whenever it yields one a round is
+    # started for it and the Ping goes out - nothing else (a member count, a flag) can veto the round
+    n = 0
+    for p in ctx.paths(f, b, 'none'):
+        if p.end != 'return' or q.path_is_error_propagation(p):
+            continue
+        nx = [c for c in p.calls() if c['res'] == 'member::Members::next']
+        st = [c for c in p.calls() if c['res'] == 'probe::Probe::start']
+        pings = [c for c in p.calls() if c['res'] == 'Foca::send_message' and q.variant_name(c['args'][2]) == 'Ping']
+        n += 1
+        if len(nx) != 1:
+            rep.violation('C12-R5', b.nname, 'next-not-consulted', 'a probe tick returns without asking Members::next for a '
+                          'target exactly once', facts={'calls': len(nx)})
+            continue
+        known = q.option_known(f, p, len(p.events), ('call', nx[0]['id']))
+        payload = ('fieldv', ('call', nx[0]['id']), '0', 'Some')
+        if known == 'Some':
+            good = len(st) == 1 and len(pings) == 1 and q.mentions(st[0]['args'][1], lambda x: x == payload)
+        elif known == 'None':
+            good = not st and not pings
+        else:
+            good = False
+        rep.check(good, 'C12-R5', b.nname, 'a round starts (Probe::start + Ping) exactly when Members::next yields a member',
+                  site=nx[0]['span'], construct='round-iff-target:%s' % known)
+    rep.floor('C12-R5', n, 4, 'returning paths of probe_random_member')
 
 
 def check(ctx):
